@@ -114,7 +114,7 @@ set_option maxHeartbeats 1000000 in
 /-- numeric × numeric -/
 theorem valuePair_numeric (m : Mode) (op : Op) (a b : Atom) (i j : Nat)
     (hi : numRank a = some i) (hj : numRank b = some j)
-    (h1 : trigTol true op a b = false) (h2 : trigPromotion true a b = false) :
+    (h1 : trigTol op a b = false) (h2 : trigPromotion a b = false) :
     valuePair m op a b = valueOp (binOrdered m) op a b := by
   cases a <;> simp [numRank] at hi <;> cases b <;> simp [numRank] at hj
   case int.int => vpn_simp
@@ -143,15 +143,7 @@ theorem valuePair_numeric (m : Mode) (op : Op) (a b : Atom) (i j : Nat)
     simp [trigTol] at h1
     vpn_simp
     rw [pyOp_flt_flt m op x y (by simpa using h1)]
-  case dbl.dbl x y =>
-    simp [trigTol] at h1
-    cases op <;> simp [valuePair, valueOp, numRank, castNum, numericEqual_of_not_tol h1, numericNotEqual_of_not_tol h1,
-      six, Atom.cls, liftPy, pyOp_dbl_dbl]
-    all_goals
-      cases hq : numEq x y
-      · simp
-      · obtain ⟨hl, hg⟩ := numEq_not_lt hq
-        simp [hl, hg]
+  case dbl.dbl x y => vpn_simp
 
 /-- year starts two (astronomical) years apart are at least 365 days apart (closed form of C11's calendar) -/
 theorem dBY_gap (a b : Int) (h : a + 2 ≤ b) :
@@ -227,12 +219,12 @@ theorem durCmp4_dtd (op : Op) (s t : Int) : durCmp4 op (0, s) (0, t) = iCmp op s
 
 set_option maxHeartbeats 2000000 in
 /-- VALUE COMPARISON vs SPECIFICATION, every pair of atoms (no untypedAtomic: get_atomized_operand has
-turned it into a string), every operator, every 2.0+ mode: outside the triggers of F07 (tolerance) and
+turned it into a string), every operator, every 2.0+ mode: outside the triggers of F07 (xs:float tolerance) and
 F07-promotion the code's lattice +
 Python operator gives exactly the outcome of XPath 3.1 §3.7.1 — the same boolean, or XPTY0004 on
 exactly the incomparable type pairs. -/
 theorem valuePair_conforms (m : Mode) (op : Op) (a b : Atom) (hua : isUA a = false) (hub : isUA b = false)
-    (h1 : trigTol true op a b = false) (h2 : trigPromotion true a b = false)
+    (h1 : trigTol op a b = false) (h2 : trigPromotion a b = false)
     (h8 : dtConsistent a b = true) :
     valuePair m op a b = valueOp (binOrdered m) op a b := by
   cases hi : numRank a with
